@@ -586,6 +586,7 @@ class kll_sketch {
     static void check_preamble_ints(uint8_t preamble_ints, uint8_t flags_byte);
     static void check_serial_version(uint8_t serial_version);
     static void check_family_id(uint8_t family_id);
+    static void check_levels(const vector_u32& levels, uint8_t num_levels, uint64_t n);
 
     void check_sorting() const;
 
